@@ -604,7 +604,7 @@ func main() {
 		r.Write(*out)
 		return
 	}
-	n := 250
+	n := 600
 	if *tier == "thorough" {
 		n = 6000
 	}
@@ -617,7 +617,7 @@ func main() {
 	}
 	dsc := shapes[*shard%len(shapes)]
 	dsc.Strategy = "dfs"
-	budget := 150
+	budget := 400
 	if *tier == "thorough" {
 		budget = 3000
 	}
